@@ -160,6 +160,16 @@ pub fn run(cfg: &Cfg, out: &mut Out) {
     }
 }
 
+/// stream B: whole sessions with hostile strings everywhere
+pub fn run_sessions(cfg: &Cfg, out: &mut Out) {
+    let root = Rng::new(cfg.seed ^ 0xC08);
+    for i in 0..cfg.cases / 2 {
+        let mut r = root.fork(i as u64);
+        out.case(&format!("render seed={} i={}", cfg.seed, i));
+        crate::prom::session(&mut r, out, crate::prom::Flavour::Strings);
+    }
+}
+
 fn emit_fn_ops(out: &mut Out, s: &str) {
     out.op(&format!("c08 name {}", hexs(s)), &hexs(&f::sanitize_metric_name(s)));
     out.op(&format!("c08 lkey {}", hexs(s)), &hexs(&f::sanitize_label_key(s)));
